@@ -77,6 +77,8 @@ func RunProfile(profile, tier string, seed int64, out string, shards int, script
 	thorough := tier == "thorough"
 	rng := rand.New(rand.NewSource(seed*7919 + 17))
 	switch profile {
+	case "numreplay":
+		return ReplayNumeric(script, filepath.Join(out, "numreplay-00.ndjson"))
 	case "genscript", "replay":
 		s, err := newShards(out, profile, shards)
 		if err != nil {
